@@ -58,8 +58,9 @@ func NewBlockParser(r io.Reader) *BlockParser {
 func Parse(source []byte) ([]*RootBlock, ReferenceMap) {
 	source = padNulls(source[:len(source):len(source)], 0)
 	p := &BlockParser{
-		buf: source,
-		err: io.EOF,
+		buf:    source,
+		lineno: 1,
+		err:    io.EOF,
 	}
 	var blocks []*RootBlock
 	refMap := make(ReferenceMap)
